@@ -309,10 +309,13 @@ func Run(c *core.Ctx) core.FinishOpts {
 		c.Sample(map[string]interface{}{"id": tc.id, "sql": tc.opts.SQL(tc.q), "mode": tc.mode, "rows_before_limit": full, "n": tc.n})
 	})
 
+	multiEvalCases(c, runner, only, selftest)
+
 	return core.FinishOpts{
 		Level: "exploration",
 		Rule: "cells = LIMIT n over a row multiset, in one output mode, at one placement (top level; inside a FROM subquery; inside a WITH; inside a subquery under a join; top level over a TRIGGER COUNTING group-by; nested over it), with one ORDER BY variant (none / total: x DESC, y / partial: x); " +
 			"the product over n in 0..12 and 1000 (quick: per multiset 0..min(12, rows+1) and 1000), the 5 modes, the 6 placements and the 6 fixed multisets is enumerated completely, plus seeded random multisets (300 quick / 4000 thorough; thorough also adds the partial-order variant to the product) (0..100 rows, <= 4 distinct values per column, 45% duplicated rows, NULLs); " +
+			"two further placement families in which the limited level is run several times within one query (see multi.go): the joined side of a LOOKUP JOIN under an outer LIMIT, and a subquery expression evaluated per outer row; " +
 			"non-trivial = the limit cuts (n < rows >= 2) or n = 0 over a non-empty input; distinct by (table, n, mode, placement, order)",
 		Floor:      c.Pick(600, 1500),
 		Exhaustive: true,
